@@ -321,14 +321,20 @@ def run(tier):
             continue
         kept.append((recfile, idx, cls))
     bads = kept
+    confirmed_hangs = {}
     for recfile, idx, cls in bads:
         label = labels[base_of[recfile] + idx]
-        if "timeout" in cls and len([g for g in groups if g[0].startswith("timeout")]) < 60:
-            # a deterministic input that exceeded its limit is re-run alone with a longer limit before being called a hang
-            s2 = signature(probe_plain if cls.startswith("plain:") else probe, recfile, idx)
-            if s2[0] is None and s2[1] is None:
-                rep.count("slow_but_terminating")
-                continue
+        if "timeout" in cls:
+            # a deterministic input that exceeded its limit is re-run alone (twice) with a longer limit before being
+            # called a hang; once three inputs of a class and family are confirmed hangs the rest of that group is
+            # listed with them without another 2 x 20 s each (the group is reported through its first, confirmed, input)
+            gkey = (cls, label.split(":")[0])
+            if confirmed_hangs.get(gkey, 0) < 3:
+                s2 = signature(probe_plain if cls.startswith("plain:") else probe, recfile, idx)
+                if s2[0] is None and s2[1] is None:
+                    rep.count("slow_but_terminating")
+                    continue
+                confirmed_hangs[gkey] = confirmed_hangs.get(gkey, 0) + 1
         fam = label.split(":")[0]
         if "exit86:" in cls:
             fam = "*"
